@@ -130,3 +130,65 @@ func refHashDBEntry(tag byte, i int) []byte {
 	d[1] = byte(i)
 	return d
 }
+
+// refRandDB is a well-formed signature database of arbitrary shape, a function of tag: 0..5 lists of the two types
+// every implementation has to decode (SHA-256: 32-byte data; X.509: data of any one length per list), each with 0..4
+// entries — lists without entries may stand in front, in the middle and at the end — arbitrary owners, and entry
+// data lengths from 1 byte to a few KiB (plus real certificates).
+func refRandDB(tag uint64) []byte {
+	r := &R{s: tag*0x9e3779b97f4a7c15 + 0x5bd1e995}
+	var ls []RefList
+	for n := r.Intn(6); n > 0; n-- {
+		var l RefList
+		cnt := r.Intn(5)
+		if r.Chance(1, 4) {
+			cnt = 0
+		}
+		owner := func(i int) (o [16]byte) {
+			switch r.Intn(3) {
+			case 0:
+				copy(o[:], r.Bytes(16))
+			case 1:
+				o[r.Intn(16)] = byte(1 + r.Intn(255))
+			}
+			o[7] = byte(i + 1) // the entries of one list are distinct
+			return
+		}
+		if r.Bool() {
+			l.Type, l.Size = wireSHA256, 48
+			for i := 0; i < cnt; i++ {
+				l.Sigs = append(l.Sigs, RefSig{Owner: owner(i), Data: r.Bytes(32)})
+			}
+		} else {
+			l.Type = wireX509
+			var dl int
+			switch r.Intn(4) {
+			case 0:
+				dl = 1 + r.Intn(64)
+			case 1:
+				dl = 700 + r.Intn(400)
+			case 2:
+				dl = Pick(r, []int{1, 12, 16, 28, 31, 32, 33, 48, 255, 256, 4096 - 16, 4096})
+			default:
+				dl = -1
+			}
+			if dl < 0 {
+				c := Pool()[r.Intn(poolSize-1)].CertDER // every entry of a list has the size of the first
+				dl = len(c)
+				for i := 0; i < cnt; i++ {
+					l.Sigs = append(l.Sigs, RefSig{Owner: owner(i), Data: c})
+				}
+			} else {
+				for i := 0; i < cnt; i++ {
+					l.Sigs = append(l.Sigs, RefSig{Owner: owner(i), Data: r.Bytes(dl)})
+				}
+			}
+			l.Size = uint32(16 + dl)
+			if cnt == 0 && r.Bool() {
+				l.Size = 0 // what NewSignatureList leaves in a list nothing was ever added to
+			}
+		}
+		ls = append(ls, l)
+	}
+	return refESLEncode(ls)
+}
